@@ -3,6 +3,7 @@
 #define VERIF_DICT_OPS_H
 #include "crumb.h"
 #include "dict_build.h"
+#include "Hash/HashUtils.h"
 #include <set>
 
 static const uint SENT = 0xDEADBEEFu;
@@ -106,7 +107,7 @@ static inline void op_meta(Ctx &c) {
     obs::violation("C15,C06", "meta", "wrong-answer", "any", "numElements=" + std::to_string(ne) + " n=" + std::to_string(c.m.n));
   if (!(ml >= c.m.L && ml <= c.m.L + 1))
     obs::violation("C15,C06", "meta", "wrong-answer", "any", "maxLength=" + std::to_string(ml) + " longest=" + std::to_string(c.m.L));
-  c.tr("meta", "n=" + std::to_string(ne) + " ml=" + std::to_string(ml), "n=" + std::to_string(ne) + " ml=" + std::to_string(ml));
+  c.tr("meta", "n=" + std::to_string(ne) + " ml=" + std::to_string(ml), "n=" + std::to_string(ne));
   c.sample(std::string(KIND_NAMES[c.kind]) + "/" + c.state + " numElements=" + std::to_string(ne) + " (n=" + std::to_string(c.m.n) + ") maxLength=" + std::to_string(ml) + " (longest=" + std::to_string(c.m.L) + ")");
 }
 
@@ -340,17 +341,50 @@ static inline std::vector<AbsQ> gen_absent(Ctx &c) {
   return v;
 }
 
+// absent strings whose first probe lands on the cell of a member (HASHRPF / HASHRPDAC hash the plain string)
+static inline void gen_colliding(Ctx &c, std::vector<AbsQ> &v) {
+  if (c.kind != K_HASHRPF && c.kind != K_HASHRPDAC)
+    return;
+  const Model &m = c.m;
+  size_t tsize = nearest_prime((uint)(m.n * (1 + (c.P.p1 * 1.0 / 100.0))));
+  if (tsize == 0) return;
+  int maxp = 0;
+  for (int b = 2; b <= 0xFE; b++) if (m.present[b]) maxp = b;
+  std::set<std::string> seen;
+  Rng r(c.rng.s ^ 0xC0111DEull); // own generator: the shared one must advance identically for every kind (C12 compares transcripts)
+  size_t want = c.big ? 200 : 40, made = 0;
+  for (size_t t = 0; t < want * 4 && made < want; t++) {
+    const std::string &w = m.S[r.below(m.n)];
+    size_t cell = bitwisehash((uchar *)w.data(), w.size(), tsize);
+    // shapes: member + (max byte + 1) + tail ; member + tail ; mutated member
+    for (int shape = 0; shape < 3; shape++) {
+      for (int tries = 0; tries < 400; tries++) {
+        std::string q = w;
+        if (shape == 0) { if (maxp >= 0xFE) break; q += (char)(maxp + 1); }
+        if (shape == 2) q[r.below(q.size())] = (char)(2 + r.below(0xFD));
+        size_t tl = (shape == 2) ? r.below(2) : 1 + r.below(3);
+        for (size_t i = 0; i < tl; i++) q += (char)(2 + r.below(0xFD));
+        if (!valid_q(q) || m.has(q)) continue;
+        if (bitwisehash((uchar *)q.data(), q.size(), tsize) != cell) continue;
+        if (seen.insert(q).second) { v.push_back({q, shape == 0 ? "collide_maxchar" : shape == 1 ? "collide_extension" : "collide_mutation"}); made++; }
+        break;
+      }
+    }
+  }
+}
+
 static inline void op_absent(Ctx &c) {
   if (!c.want("locate_absent"))
     return;
   std::vector<AbsQ> qs = gen_absent(c);
+  gen_colliding(c, qs);
   std::set<std::string> classes;
   for (auto &a : qs) {
     size_t id = do_locate(c, a.q, "C02", "locate_absent", a.cls);
     obs::count("eval.locate_absent");
     obs::count("cls.absent_" + a.cls);
     classes.insert(a.cls);
-    c.tr("absent", obs::esc(a.q, 64) + "=" + std::to_string(id), obs::esc(a.q, 64) + (id ? "=found" : "=0"));
+    c.tr(a.cls.compare(0, 8, "collide_") == 0 ? "absent_collide" : "absent", obs::esc(a.q, 64) + "=" + std::to_string(id), obs::esc(a.q, 64) + (id ? "=found" : "=0"));
     if (id != 0)
       obs::violation("C02", "locate_absent", "spurious", a.cls, "q=" + obs::esc(a.q) + " got=" + std::to_string(id));
   }
@@ -540,6 +574,16 @@ static inline std::vector<PQ> gen_prefixes(Ctx &c) {
     if (!m.present[b]) {
       add(std::string(1, (char)b), "absent_byte");
       add(m.S[r.below(n)].substr(0, 1) + (char)b, "absent_byte");
+      { // foreign byte in the middle, followed by a tail that does occur
+        const std::string &z = m.S[r.below(n)];
+        if (z.size() >= 2) {
+          size_t k = r.below(z.size() - 1);
+          std::string q = z.substr(0, std::min<size_t>(z.size(), k + 1 + 1 + r.below(4)));
+          q[k] = (char)b;
+          add(q, "absent_byte_inner");
+          add(std::string(1, (char)b) + z.substr(0, 1 + r.below(std::min<size_t>(z.size(), 4))), "absent_byte_inner");
+        }
+      }
       if (v.size() > 4000) break;
       if (b > 8 && b < 0xF8 && !r.chance(6)) continue;
     }
@@ -743,6 +787,15 @@ static inline std::vector<PQ> gen_substrs(Ctx &c) {
       add(std::string(1, (char)b), cls);
       add(m.S[r.below(n)].substr(0, 1) + (char)b, cls);
       add(std::string(1, (char)b) + m.S[r.below(n)].substr(0, 1), cls);
+      {
+        const std::string &z = m.S[r.below(n)];
+        if (z.size() >= 3) {
+          size_t k = 1 + r.below(z.size() - 2);
+          std::string q = z.substr(0, std::min<size_t>(z.size(), k + 2 + r.below(3)));
+          q[k] = (char)b;
+          add(q, "sub_absent_byte_inner");
+        }
+      }
       if (b > 6 && b < 0xFA && !r.chance(5)) continue;
     }
   return v;
